@@ -25,7 +25,7 @@ func init() {
 func runC09(p *Prog, r *Report) {
 	r.Min("C09.R1", 3)
 	r.Min("C09.R2", 2)
-	r.Min("C09.R3", 6)
+	r.Min("C09.R3", 9)
 	r.Min("C09.R4", 3)
 	r.Min("C09.R5", 5)
 	var scan *ssa.Function
@@ -267,6 +267,24 @@ func checkSocksDeadlines(p *Prog, r *Report, scan *ssa.Function) {
 					continue
 				}
 				wrapperT = recvNamed(fn)
+				// one raw operation per wrapper call: the probe's bound counts wrapper calls (one write, at most
+				// two reads), each limited by one data timeout - a retry loop inside the wrapper removes the bound
+				once, whyOnce := len(LoopHeaders(fn)) == 0, "the wrapper repeats the raw "+op+" in a loop: a server that stays silent keeps the probe alive without bound"
+				if once {
+					whyOnce = ""
+					for _, s := range Paths(fn).Segs {
+						k := 0
+						for _, e := range s.Events {
+							if e.Kind == EvCall && e.Call != nil && isConnIO(e.Call) == op {
+								k++
+							}
+						}
+						if k > 1 {
+							once, whyOnce = false, fmt.Sprintf("%d raw %s calls on one path", k, op)
+						}
+					}
+				}
+				r.Check(once, "C09.R3", key+"/once", pos, "the deadline wrapper performs one raw "+op+" per call (each call is bounded by one data timeout)", whyOnce)
 				// every path to the call sets the matching deadline from now+timeout and tests the error
 				ok2, why := true, ""
 				for _, s := range Paths(fn).Segs {
@@ -358,6 +376,36 @@ func checkSocksDeadlines(p *Prog, r *Report, scan *ssa.Function) {
 		r.Check(seen && d == "", "C09.R3", FuncName(scan)+"/"+n+"-stream", pos, "protocol "+n+" goes through the deadline wrapper over the dialled connection with the scanner's data timeout", d)
 	}
 	// dialer default and options
+	nDialerStores := 0
+	for _, fn := range p.SrcFuncs() {
+		if fn.Pkg != pkg {
+			continue
+		}
+		for _, b := range fn.Blocks {
+			for _, in := range b.Instrs {
+				st, isSt := in.(*ssa.Store)
+				if !isSt {
+					continue
+				}
+				fa, isFA := st.Addr.(*ssa.FieldAddr)
+				if !isFA || fieldName(fa.X.Type(), fa.Field) != "dialer" {
+					continue
+				}
+				nDialerStores++
+				fresh := true
+				os := p.Origins(st.Val)
+				for _, o := range os {
+					if a, isA := o.(*ssa.Alloc); !isA || a.Parent() != fn {
+						fresh = false
+					}
+				}
+				r.Check(fresh && len(os) > 0, "C09.R3", FuncName(fn)+"/dialer-per-scanner", p.Pos(st.Pos()), "every scanner gets a dialer allocated for it (an option setting the connect timeout must not write through a dialer shared with other scanners)", "the dialer stored is "+(*Seg)(nil).term(st.Val, 0))
+			}
+		}
+	}
+	if nDialerStores == 0 {
+		r.Viol("C09.R3", "dialer-per-scanner", "-", "the scanner's dialer field is set by its constructor", "no store found")
+	}
 	for _, fn := range p.SrcFuncs() {
 		if fn.Pkg != pkg || fn.Parent() != nil {
 			continue
